@@ -70,6 +70,42 @@ namespace nmtools::array
             auto numel   = index::product(sizes_);
             // since size may be packed, the proper way to read dim is using len instead of sizes..+1
             auto new_dim = len(sizes_);
+            // validate before touching shape_ or data_, a refused resize must leave the array unchanged
+            if constexpr (meta::is_resizable_v<shape_type>) {
+                [[maybe_unused]] constexpr auto max_dim = meta::bounded_size_v<shape_type>;
+                if constexpr (!meta::is_fail_v<decltype(max_dim)>) {
+                    if ((size_t)new_dim > (size_t)max_dim) {
+                        return false;
+                    }
+                }
+            } else {
+                if ((size_t)len(shape_) != (size_t)new_dim) {
+                    return false;
+                }
+            }
+            if constexpr (meta::is_resizable_v<buffer_type>) {
+                [[maybe_unused]] constexpr auto max_numel = meta::bounded_size_v<buffer_type>;
+                if constexpr (!meta::is_fail_v<decltype(max_numel)>) {
+                    if ((size_t)numel > (size_t)max_numel) {
+                        return false;
+                    }
+                }
+            } else {
+                if ((size_t)len(data_) != (size_t)numel) {
+                    return false;
+                }
+            }
+            if constexpr (meta::is_clipped_index_array_v<shape_type>) {
+                constexpr auto max_sizes = meta::to_value_v<shape_type>;
+                if ((size_t)len(sizes_) != (size_t)len(max_sizes)) {
+                    return false;
+                }
+                for (size_t i=0; i<len(max_sizes); i++) {
+                    if ((size_t)at(sizes_,i) > (size_t)at(max_sizes,i)) {
+                        return false;
+                    }
+                }
+            }
             if constexpr (meta::is_resizable_v<shape_type>) {
                 shape_.resize(new_dim);
             }
